@@ -1,7 +1,7 @@
 (* C17 - VecEnv wrappers keep the contract and transform terminal observations alike.
    Only statements: every proof is [exact <lemma>], followed by Print Assumptions. *)
-From Coq Require Import List ZArith QArith Bool.
-From SB3V Require Import Gen.Frag_stacking Model.Script Model.VecEnv Model.Wrappers Proofs.WrappersProofs Model.RunningMoments Model.VecNorm Proofs.WrapperStackProofs Model.EnvUtil Proofs.EnvUtilProofs.
+From Coq Require Import List ZArith QArith Bool Lia.
+From SB3V Require Import Gen.Frag_stacking Gen.Frag_checknan Model.WrapperBounds Proofs.WrapperBoundsProofs Model.CheckNan Proofs.CheckNanProofs Model.Script Model.VecEnv Model.Wrappers Proofs.WrappersProofs Model.RunningMoments Model.VecNorm Proofs.WrapperStackProofs Model.EnvUtil Proofs.EnvUtilProofs.
 Import ListNotations.
 Local Open Scope nat_scope.
 
@@ -313,3 +313,109 @@ Example ex_sync :
   sync_chain copy_tags [LNorm (Some 10%Z, 11%Z)] [LOther 2%Z] = None /\
   compatible [LOther 1%Z; LNorm (Some 10%Z, 11%Z)] [LOther 2%Z; LNorm (Some 30%Z, 31%Z)] = true.
 Proof. repeat split; reflexivity. Qed.
+
+(* ================= build round 5: declared bounds of the stacked space, VecCheckNan ================= *)
+(* A tensor seen from the stacking axis is a grid (rows x cells along the axis); P b x: bounds b admit cell x (any bounds type, any cell type).
+   If the wrapped env's observations and terminal observations lie within the bounds bg, the zero frame does too (every element's bounds
+   contain 0) and the bounds do not vary along the stacking axis, then for EVERY n_stack, history and shape the returned window and every
+   stacked terminal observation lie within the declared bounds np.repeat(bg, n_stack, axis) *)
+Theorem C17_window_within_declared_bounds : forall (B X : Type) (P : B -> X -> Prop) (bg : grid B) (zero : grid X) (n : nat) (evs : list (fevent (grid X))),
+  1 <= n -> guniform bg -> gwithin P bg zero -> Forall (fevent_ok (gwithin P bg)) evs ->
+  gwithin P (grepeat n bg) (gcat (length bg) (fs_run zero n evs)) /\
+  forall t, gwithin P bg t -> gwithin P (grepeat n bg) (gcat (length bg) (fs_terminal (fs_run zero n evs) t)).
+Proof. exact window_within_declared_bounds. Qed.
+Print Assumptions C17_window_within_declared_bounds.
+
+(* against TILED bounds (n copies side by side, what a repaired wrapper would declare) no uniformity is needed *)
+Theorem C17_window_within_tiled_bounds : forall (B X : Type) (P : B -> X -> Prop) (bg : grid B) (zero : grid X) (n : nat) (evs : list (fevent (grid X))),
+  1 <= n -> gwithin P bg zero -> Forall (fevent_ok (gwithin P bg)) evs ->
+  gwithin P (gtile n bg) (gcat (length bg) (fs_run zero n evs)) /\
+  forall t, gwithin P bg t -> gwithin P (gtile n bg) (gcat (length bg) (fs_terminal (fs_run zero n evs) t)).
+Proof. exact window_within_tiled_bounds. Qed.
+Print Assumptions C17_window_within_tiled_bounds.
+
+Theorem C17_repeat_is_tile_when_uniform : forall (B : Type) (bg : grid B) (n : nat), guniform bg -> grepeat n bg = gtile n bg.
+Proof. exact repeat_is_tile_when_uniform. Qed.
+Print Assumptions C17_repeat_is_tile_when_uniform.
+
+Theorem C17_fragment_declared_bounds : forall x : Z, declared_low x = x /\ declared_high x = x.
+Proof. exact frag_declared_bounds. Qed.
+Print Assumptions C17_fragment_declared_bounds.
+
+(* --- VecCheckNan --- *)
+Theorem C17_checknan_identity_on_finite : forall c warned evs,
+  Forall event_finite evs -> cn_run c warned evs = map identity_out evs.
+Proof. exact identity_on_finite. Qed.
+Print Assumptions C17_checknan_identity_on_finite.
+
+Theorem C17_checknan_detection_exact : forall c warned arrays,
+  negb (raise_exception c) && warn_once c && warned = false ->
+  (some_bad c arrays ->
+     exists f, f <> [] /\ f = issues c arrays /\
+               check_val c warned arrays = (if raise_exception c then VRaise f else VWarn f, true)) /\
+  (~ some_bad c arrays -> check_val c warned arrays = (VPass, warned)).
+Proof. exact detection_exact. Qed.
+Print Assumptions C17_checknan_detection_exact.
+
+Theorem C17_checknan_warn_once_silent_afterwards : forall c arrays,
+  raise_exception c = false -> warn_once c = true -> check_val c true arrays = (VPass, true).
+Proof. exact warn_once_silent_afterwards. Qed.
+Print Assumptions C17_checknan_warn_once_silent_afterwards.
+
+Theorem C17_checknan_data_unchanged : forall c w ev,
+  match fst (cn_step c w ev) with
+  | CNReset _ o => ev = NReset o
+  | CNStep _ _ o r d => exists a, ev = NStep a o r d
+  | CNResetRaised _ => exists o, ev = NReset o /\ some_bad c o
+  | CNAsyncRaised _ => exists a o r d, ev = NStep a o r d /\ some_bad c [a]
+  | CNWaitRaised _ _ => exists a o r d, ev = NStep a o r d /\ some_bad c (o ++ [r; dones_arr d])
+  end.
+Proof. exact data_unchanged. Qed.
+Print Assumptions C17_checknan_data_unchanged.
+
+Theorem C17_checknan_raise_mode_history_independent : forall c warned evs,
+  raise_exception c = true -> cn_run c warned evs = map (fun ev => fst (cn_step c false ev)) evs.
+Proof. exact raise_mode_history_independent. Qed.
+Print Assumptions C17_checknan_raise_mode_history_independent.
+
+Theorem C17_fragment_checknan_guards : forall c warned a,
+  skip_check_guard (raise_exception c) (warn_once c) warned = negb (raise_exception c) && warn_once c && warned /\
+  array_has_inf (check_inf c) (existsb is_inf a) = check_inf c && existsb is_inf a /\ array_has_nan (existsb is_nan a) = existsb is_nan a.
+Proof. exact (fun c w a => conj (frag_skip_check_guard c w) (frag_array_checks c a)). Qed.
+Print Assumptions C17_fragment_checknan_guards.
+
+Theorem C17_checknan_model_is_regenerated_guards : forall c warned arrays k a,
+  (skip_check_guard (raise_exception c) (warn_once c) warned = true -> check_val c warned arrays = (VPass, warned)) /\
+  array_issues c k a = (if array_has_inf (check_inf c) (existsb is_inf a) then [(k, IInf)] else []) ++
+                       (if array_has_nan (existsb is_nan a) then [(k, INan)] else []).
+Proof. exact (fun c w arrays k a => conj (check_val_is_regenerated_guard c w arrays) (array_issues_is_regenerated c k a)). Qed.
+Print Assumptions C17_checknan_model_is_regenerated_guards.
+
+(* non-vacuity: bounds [1,5] x [-3,7] on two rows that do not vary along the axis (2 cells), zero within, frames within; the grid view of tensors *)
+Definition ex_P (b : Z * Z) (x : Z) : Prop := (fst b <= x <= snd b)%Z.
+Definition ex_bg : grid (Z * Z) := [[(-1, 5); (-1, 5)]; [(-3, 7); (-3, 7)]]%Z.
+Example ex_bounds_hyps :
+  guniform ex_bg /\ gwithin ex_P ex_bg [[0; 0]; [0; 0]]%Z /\
+  Forall (fevent_ok (gwithin ex_P ex_bg)) [FReset [[1; 2]; [-3; 7]]%Z; FStep [[5; -1]; [0; 1]]%Z true (Some [[4; 4]; [6; 6]]%Z)] /\
+  grepeat 2 ex_bg = [[(-1, 5); (-1, 5); (-1, 5); (-1, 5)]; [(-3, 7); (-3, 7); (-3, 7); (-3, 7)]]%Z /\
+  gcat 2 (fs_run [[0; 0]; [0; 0]]%Z 2 [FReset [[1; 2]; [-3; 7]]%Z]) = [[0; 0; 1; 2]; [0; 0; -3; 7]]%Z.
+Proof.
+  split; [repeat constructor; eexists; exists 2; reflexivity|].
+  split; [repeat constructor; unfold ex_P; cbn; lia|].
+  split; [|split; reflexivity].
+  repeat constructor; unfold ex_P; cbn; lia.
+Qed.
+Example ex_trepeat :
+  trepeat false 2 (mk_tensor [2; 2] [1; 2; 3; 4]%Z) = mk_tensor [2; 4] [1; 1; 2; 2; 3; 3; 4; 4]%Z /\
+  trepeat true 2 (mk_tensor [2; 2] [1; 2; 3; 4]%Z) = mk_tensor [4; 2] [1; 2; 1; 2; 3; 4; 3; 4]%Z /\
+  ttile true 2 (mk_tensor [2; 2] [1; 2; 3; 4]%Z) = mk_tensor [4; 2] [1; 2; 3; 4; 1; 2; 3; 4]%Z.
+Proof. repeat split; reflexivity. Qed.
+(* VecCheckNan: warn mode + warn_once + check_inf off: inf ignored, first nan warned, second nan silent, data handed on *)
+Example ex_checknan :
+  cn_run (mk_cfg false true false) false
+    [NReset [[Fin 1; PInf]]; NStep [Fin 0%Z] [[NaN; Fin 2]] [Fin 1%Z] [false]; NStep [NaN] [[Fin 3; Fin 3]] [NaN] [true]]
+  = [CNReset VPass [[Fin 1; PInf]]; CNStep VPass (VWarn [(0, INan)]) [[NaN; Fin 2]] [Fin 1%Z] [false]; CNStep VPass VPass [[Fin 3; Fin 3]] [NaN] [true]] /\
+  cn_run (mk_cfg true false true) false [NStep [PInf] [[Fin 1%Z]] [Fin 1%Z] [false]; NStep [Fin 0%Z] [[Fin 1%Z]; [NInf]] [NaN] [false]]
+  = [CNAsyncRaised [(0, IInf)]; CNWaitRaised VPass [(1, IInf); (2, INan)]] /\
+  event_finite (NStep [Fin 0%Z] [[Fin 1%Z]] [Fin 1%Z] [false]).
+Proof. repeat split; repeat constructor. Qed.
